@@ -119,6 +119,22 @@ PROPERTIES = {
         "not_decided": ["RTCDtlsTransport._handle_rtp_data/_handle_rtcp_data (callers of the router)",
                         "upper bound on the recipients of PSFB/REMB packets"],
     },
+    "C13": {
+        "claim": "Proof for the channel-side bookkeeping of RTCDataChannel: _addBufferedAmount changes bufferedAmount by exactly "
+                 "the given amount and emits 'bufferedamountlow' exactly when the amount goes from above the threshold to at or "
+                 "below it (events observed through a ghost log of emit() calls); _setReadyState stores the state and emits "
+                 "'open' / 'close' exactly on a change into that state, at most one event per call. Reduced: the DCEP OPEN/ACK "
+                 "exchange, id allocation, forward-only state at the call sites and the accounting across send/flush in "
+                 "RTCSctpTransport are not under contract.",
+        "note": "emit() is modelled as appending the event name to a ghost list; listeners are assumed not to re-enter the "
+                "channel while an event is being emitted (a re-entrant send() from a bufferedamountlow listener is therefore "
+                "outside the model). F-16 (DCEP label length counted in characters) is not decided by any check.",
+        "design_ref": "DESIGN.md 4.13, 9",
+        "trusted_base": COMMON + ["pyee emit(): listeners do not re-enter the emitting object"],
+        "not_decided": ["DCEP OPEN encode/decode (_data_channel_open / _data_channel_receive), F-16", "id parity and reuse",
+                        "forward-only readyState at the call sites (ACK after close)", "bufferedAmount accounting in "
+                        "_data_channel_send/_data_channel_flush", "re-entrant listeners"],
+    },
     "C14": {
         "claim": "Proof for RTCPeerConnection.__validate_description, the gate every setLocalDescription/setRemoteDescription "
                  "call passes before anything is written: it raises InvalidStateError exactly when (side, type) is illegal in the "
@@ -149,19 +165,26 @@ PROPERTIES = {
         "not_decided": ["rate.py: RemoteBitrateEstimator, AimdRateControl (F-18), OveruseDetector, RateCounter"],
     },
     "C16": {
-        "claim": "Proof for VP8: every payload produced by Vp8Encoder._packetize is 1..1300 bytes for any frame buffer and any "
-                 "15-bit picture id, only the first packet carries the partition-start bit, the loop terminates; "
-                 "VpxPayloadDescriptor.parse decodes S, PID and the 7/15-bit picture id exactly, returns a suffix of its "
-                 "input, raises ValueError exactly on the stated truncation condition; parse(bytes(d)).picture_id == "
-                 "d.picture_id for all 15-bit values. Reduced: H.264 packetisation and the byte-exact reassembly are not "
-                 "under contract.",
-        "note": "H264Encoder._packetize_fu_a uses math.ceil over a real quotient and _packetize_stap_a/_packetize use "
-                "iterators (itertools.tee, next) outside the engine's subset; 'concatenating the depacketised payloads "
-                "reproduces the buffer' is not stated (needs a ghost concatenation the engine lacks).",
+        "claim": "Proof for H.264 FU-A fragmentation (H264Encoder._packetize_fu_a, any NAL unit longer than 1300 bytes): the "
+                 "number of fragments is ceil(payload/1298), every RTP payload is 3..1300 bytes, each carries the original F/NRI "
+                 "bits with type 28 and the original NAL type, exactly the first has the start marker and exactly the last the "
+                 "end marker, and fragment j is the slice of the NAL payload from the closed-form offset start(j) to start(j+1) "
+                 "with start(0) = 1 and start(n) = len: consecutive, in order, covering everything; the loop terminates and the "
+                 "final assert holds. H264PayloadDescriptor.parse raises only ValueError, terminates, never rejects a single-NAL or "
+                 "FU-A packet of >= 2 bytes, returns start code + NAL for single NAL units (types 1..23), and for FU-A restores "
+                 "start code + original header on the first fragment and passes the payload verbatim; composition harness: "
+                 "parse(fragment j) yields exactly that fragment's slice (with start code and the original header byte for j = 0). "
+                 "Proof for VP8: every payload is 1..1300 bytes, only the first packet carries the partition-start bit, the "
+                 "descriptor parser decodes S/PID/picture id exactly and the picture id round-trips for all 15-bit values. "
+                 "Reduced: STAP-A aggregation, _packetize's outer loop and _split_bitstream are not under contract; that "
+                 "consecutive covering slices concatenate to the original is the remaining (not mechanised) step.",
+        "note": "math.ceil(a / b) on integers is computed in exact integer arithmetic (float rounding ignored; exact below 2^53). "
+                "pairwise() (itertools recipe used by the STAP-A branch of the parser) carries an assumed contract.",
         "design_ref": "DESIGN.md 4.16, 9",
-        "trusted_base": COMMON,
-        "not_decided": ["H.264 FU-A / STAP-A packetisation and depacketisation", "VP8 payload concatenation == frame buffer",
-                        "_split_bitstream"],
+        "trusted_base": COMMON + ["assumed contract: aiortc.codecs.h264:pairwise (itertools tee/zip recipe)"],
+        "not_decided": ["H264Encoder._packetize_stap_a / _packetize / _split_bitstream", "STAP-A depayload content",
+                        "concatenation of consecutive covering slices equals the original (stated, not mechanised)",
+                        "VP8 payload concatenation == frame buffer"],
     },
     "C17": {
         "claim": "Proof that uint16/uint32 add, gt, gte implement RFC 1982 serial arithmetic, and lemmas over those "
@@ -199,6 +222,5 @@ NOT_APPLICABLE = {
     "C04": "OpenSSL handshake, key export and libsrtp are external C code; the repo-owned fingerprint comparison contract was not built (DESIGN 4.4)",
     "C06": _NOT_BUILT + " (_maybe_abandon/_update_advanced_peer_ack_point/prune_chunks; F-15 stays unreported by any check)",
     "C09": "SDP parse/serialise is string/regex code; no contract within reach of the installed solvers decides the round trip (DESIGN 4.9)",
-    "C13": _NOT_BUILT + " (DCEP codec, _setReadyState, bufferedAmount accounting; F-16 stays unreported by any check)",
     "C19": "termination and absence of leftover tasks/threads across coroutine interleavings is not expressible as a function contract (DESIGN 4.19)",
 }
